@@ -138,6 +138,29 @@ var jsonAtoms = []string{
 }
 
 func genJSONObject(r *core.Rand, target int) []byte {
+	if r.Chance(1, 24) {
+		// deeply nested objects and arrays of objects (a google.protobuf.Struct
+		// can be this deep; protojson allows 10 000 levels): around the sizes
+		// of the small integer types
+		depth := r.Pick(30, 126, 127, 128, 129, 130, 255, 256, 257, 300, 600)
+		var b bytes.Buffer
+		for i := 0; i < depth; i++ {
+			if i%7 == 3 {
+				b.WriteString(`{"a":[`)
+			} else {
+				b.WriteString(`{"n":`)
+			}
+		}
+		b.WriteString(`{}`)
+		for i := depth - 1; i >= 0; i-- {
+			if i%7 == 3 {
+				b.WriteString(`]}`)
+			} else {
+				b.WriteString(`}`)
+			}
+		}
+		return b.Bytes()
+	}
 	if target <= 0 || r.Chance(1, 2) {
 		return []byte(jsonAtoms[r.Intn(len(jsonAtoms))])
 	}
